@@ -137,7 +137,10 @@ def run(ctx):
       elif fn == 'mean':
         items = list(zip(trees, wobjs))
       else:
-        items = [(b'c%d' % i, t, wo) for i, (t, wo) in enumerate(zip(trees, wobjs))]
+        # client ids are labels only: distinct ids, or the same id on several triples (a client sending two updates, sampling
+        # with replacement) - every triple counts
+        idf = (lambda i: b'c%d' % i, lambda i: b'same', lambda i: (1, 1.0, True)[i % 3], lambda i: b'c%d' % (i // 2))[(ci + oi) % 4]
+        items = [(idf(i), t, wo) for i, (t, wo) in enumerate(zip(trees, wobjs))]
       src = OnePassSource(items)
       arg = items if container == 'list' else (src if container == 'gen' else map(lambda x: x, src))
       cfg = dict(fn=fn, inputs=[ins[i] for i in order], leaves=kind, container=container, weight_type=wkind)
